@@ -95,6 +95,8 @@ func (c *containerImpl) Equals(node Node) bool {
 	return true
 }
 
+// ensureChildren allocates map of children. It must only be called on write path,
+// so that reading from Container is safe for concurrent use.
 func (c *containerImpl) ensureChildren() {
 	if c.children == nil {
 		c.children = map[string]Node{}
@@ -102,7 +104,6 @@ func (c *containerImpl) ensureChildren() {
 }
 
 func (c *containerImpl) Child(name string) Node {
-	c.ensureChildren()
 	if listPathRe.MatchString(name) {
 		idx := listPathRe.FindStringIndex(name)
 		index, _ := strconv.Atoi(name[idx[0]+1 : idx[1]-1])
@@ -145,7 +146,6 @@ func (c *containerImpl) SameAs(node Node) bool {
 }
 
 func (c *containerImpl) Children() map[string]Node {
-	c.ensureChildren()
 	return c.children
 }
 
@@ -157,7 +157,6 @@ func (c *containerImpl) Lookup(path string) Node {
 	if path == "" {
 		return nil
 	}
-	c.ensureChildren()
 	pc := strings.Split(path, ".")
 	var current Container
 	current = c
@@ -190,7 +189,6 @@ func (c *containerBuilderImpl) Seal() Container {
 }
 
 func (c *containerBuilderImpl) Walk(fn WalkFn) {
-	c.ensureChildren()
 	for k, v := range c.children {
 		if v.IsContainer() {
 			v.(ContainerBuilder).Walk(fn)
